@@ -35,6 +35,10 @@ func TracingRoundTripper(transport http.RoundTripper, collector Collector) http.
 			builder.add(&RequestCanceled{})
 		}()
 		req = req.Clone(ctx)
+		if req.Body == nil {
+			// e.g. a GET built without a body (as when a redirect is followed)
+			req.Body = http.NoBody
+		}
 		req.Body = newRequestReader(req.Header, req.Body, true, builder)
 		resp, err := transport.RoundTrip(req)
 		if err != nil {
